@@ -378,10 +378,15 @@ class Connector:
         if not enabled and self.__sync_mode != Connector.SYNC_MODE_OFF:
             self.__sync_mode = Connector.SYNC_MODE_OFF
         elif enabled:
+            # Clear events queue *before* switching to synchronous mode: an
+            # event saved by the I/O thread once the mode is set must not be
+            # discarded.
+            self.__sync_events.queue.clear()
             if events:
                 self.__sync_mode = Connector.SYNC_MODE_ALL
             else:
                 self.__sync_mode = Connector.SYNC_MODE_PKT
+            return
 
         # Clear events queue
         self.__sync_events.queue.clear()
